@@ -30,7 +30,7 @@ ASSUME = ["workers poll with timeouts <= 5 s: all node/connection/application wo
           "timeout closures happen between wait_timeout and wait_timeout + wakeup + 2 s after stop()"]
 
 STATES = ["connecting", "awaiting-cer", "awaiting-cea", "ready", "ready", "waiting-dwa", "disconnecting"]
-REACTIONS = ["prompt", "late", "never", "close", "reset", "dpa-pending-output", "dwa-then-dpa", "dwr+dpa-one-segment"]
+REACTIONS = ["prompt", "late", "never", "close", "reset", "dpa-pending-output", "dwa-then-dpa", "dwr+dpa-one-segment", "dpa-5012"]
 
 
 def world_cfg(case):
@@ -134,6 +134,12 @@ def evaluate(case) -> Result:
                     w.feed_msg(c, {"k": "DPA", "host": c.host or f"peer{i + 1}.example", "hbh": dprs[0].h["hbh"], "e2e": dprs[0].h["e2e"]},
                                run=False)
                     batched.append(i)
+                    t_dpa[i] = w.k.now
+                    del pending_reactions[i]
+                elif react == "dpa-5012":
+                    # the peer answers the DPR with an error result: a DPA all the same, the connection is closed
+                    w.feed_msg(c, {"k": "DPA", "host": c.host or f"peer{i + 1}.example", "hbh": dprs[0].h["hbh"], "e2e": dprs[0].h["e2e"],
+                                   "result": 5012 if i % 2 == 0 else 3004})
                     t_dpa[i] = w.k.now
                     del pending_reactions[i]
                 elif react == "dpa-pending-output":
